@@ -161,7 +161,8 @@ def run_case(case):
             c['held'] = c['pref'] + 1        # lost pref to the lower NAME, re-claimed the next one (WAIT_VETO -> NORMAL at the next tick)
         es = expect_state[st]
         if st == 'moved':
-            if c['ca'].state != ST.NORMAL or c['ca'].device_address != c['pref'] + 1:
+            # (where the CA is is decided by the harness's own record: it claimed pref + 1 on the bus after the loss and nobody contested it)
+            if c['ca'].state != ST.NORMAL or not any(f.src == 'A' and C.split_id(f.can_id)['pf'] == C.PF_ADDRESS_CLAIM and (f.can_id & 0xFF) == c['pref'] + 1 for f in W.bus.frames):
                 W.close()
                 return dict(violations=[], inconclusive='could not drive CA into state moved (%r, %r)' % (c['ca'].state, c['ca'].device_address),
                             sig='setup', nontrivial=False, obs={}, sample=None)
